@@ -363,7 +363,7 @@ func probeSched(f []string) string {
 	// `latestart`: the command loop does not wait for a chunked delivery's goroutine to reach the backend (the schedule of an
 	// unloaded production server: the goroutine is started and the handler runs on)
 	var lateStart atomic.Bool
-	smtp.VerifPoint = func(name string) {
+	setVerifPoint(func(name string) {
 		if name == "bdat-spawned" {
 			if lateStart.Load() {
 				return
@@ -374,7 +374,7 @@ func probeSched(f []string) string {
 				log.add("HANG-SPAWN")
 			}
 		}
-	}
+	})
 	before := runtime.NumGoroutine()
 	l := &oneShot{c: conn, closed: make(chan struct{})}
 	served := make(chan error, 1)
@@ -473,7 +473,7 @@ func probeSched(f []string) string {
 	for i := 0; i < 2000 && int64(strings.Count(log.String(), "PANIC")) < panicsRaised.Load(); i++ {
 		time.Sleep(time.Millisecond)
 	}
-	smtp.VerifPoint = nil
+	setVerifPoint(nil)
 	left := 0
 	for i := 0; i < 300; i++ {
 		left = runtime.NumGoroutine() - before
